@@ -1,6 +1,8 @@
 use super::{tag_no_case, IResult, LocatedSpan};
 use nom::branch::alt;
-use nom::combinator::map;
+use nom::character::complete::satisfy;
+use nom::combinator::{map, not};
+use nom::sequence::terminated;
 use strum::{EnumIter, EnumString, EnumVariantNames};
 
 /// The available 6502 instructions.
@@ -65,9 +67,16 @@ pub enum Mnemonic {
     Tya,
 }
 
+// (a mnemonic is a word of its own: 'inc16(foo)' and 'sector()' are invocations of macros, not 'inc' and 'sec' with an operand)
 macro_rules! parse_mnemonic {
     ( $ input : expr , $ expected : expr ) => {
-        map(tag_no_case($input), |_| $expected)
+        map(
+            terminated(
+                tag_no_case($input),
+                not(satisfy(|c: char| c.is_alphanumeric() || c == '_')),
+            ),
+            |_| $expected,
+        )
     };
 }
 
